@@ -448,6 +448,9 @@ func genOp(t *rapid.T, method string, maxCalls int, big bool) Op {
 	o.Payload = "none"
 	if method != "GET" {
 		o.Payload = rapid.SampledFrom([]string{"none", "json", "json", "yaml", "form", "form", "multipart", "multipart", "multipart"}).Draw(t, "payload")
+		if o.Payload != "none" {
+			o.AlsoConsumes = rapid.SampledFrom([]string{"", "", mtJSON, mtYAML}).Draw(t, "also-consumes")
+		}
 	}
 	nq := rapid.IntRange(0, 4).Draw(t, "nqh")
 	for i := 0; i < nq; i++ {
